@@ -131,6 +131,7 @@ class RecordHistory(Engine):
             "strip": rng.choice([0, 0, 0.3]),
             "lookup": rng.choice([1, 3, 6]),
             "readd": rng.choice([0, 0.5, 1.5]),
+            "roundtrip": rng.choice([0, 0, 0.4, 1]),
         }
         table = sorted(weights.items())
         origin_bias = rng.choice([0.0, 0.2, 0.5]) if circular else 0.0
@@ -339,7 +340,7 @@ EXPECTED_PROBES = [
     "origin_area_overlaps_2", "region_covers_whole_record", "clear_create_cycle_2", "region_created",
     "implicit_region_recreation", "lookup_compound", "lookup_overlap_hits_origin_gene", "multi_region",
     "region_with_2_members", "op_rejected", "gene_renamed", "definition_cds", "multi_exon_gene",
-    "area_readded_after_clear", "identical_subregions",
+    "area_readded_after_clear", "identical_subregions", "record_read_back",
 ]
 
 
@@ -507,6 +508,27 @@ class _Execution:
             if kind in ("clear_protos", "clear_cands", "clear_subs", "clear_regions", "strip"):
                 self.before_clear = (list(rec.get_protoclusters()) + list(rec.get_candidate_clusters())
                                      + list(rec.get_subregions()))
+            if kind == "roundtrip":
+                # the record is written out as GenBank features and read back: areas that start before a gene are
+                # in the new record before that gene is added, the order an annotated file is loaded in
+                bio = rec.to_biopython()
+                new = _MODS["Record"].from_biopython(bio, taxon="bacteria")
+                old_protos, new_protos = list(rec.get_protoclusters()), list(new.get_protoclusters())
+                old_subs, new_subs = list(rec.get_subregions()), list(new.get_subregions())
+                if len(old_protos) != len(new_protos) or len(old_subs) != len(new_subs) \
+                        or sorted(self._names(new.get_cds_features())) != sorted(self.genes):
+                    self.result["aborted"] = {"op": kind, "error": "features-lost-in-round-trip"}
+                    return "abort"
+                for spec in self.protos.values():
+                    spec["obj"] = new_protos[next(i for i, p in enumerate(old_protos) if p is spec["obj"])]
+                for spec in self.subs.values():
+                    spec["obj"] = new_subs[next(i for i, s in enumerate(old_subs) if s is spec["obj"])]
+                for name, gene in self.genes.items():
+                    gene["obj"] = new.get_cds_by_name(name)
+                self.removed.clear()
+                self.record = new
+                res.probe("record_read_back")
+                return "ok"     # regions are rebuilt as they were, not created anew
             if kind == "readd":
                 spec = self.removed.pop(op["id"], None)
                 if spec is None:
